@@ -354,3 +354,15 @@ class Ctx:
             self.prop, self.tier, self.seed, ndis, nob, self.evaluations,
             'VIOLATION' if violations else 'ok', wall))
         return 1 if violations else 0
+
+
+# ---- text arguments that are str subclasses (an Enum with str mixin, a str whose __str__ says something else): the
+# ---- library must treat them as the text they ARE (their str value), not as what str()/repr()/format() print
+import enum as _enum
+class _Odd(str):
+    def __str__(self): return 'Man:' + str.__str__(self)
+    def __repr__(self): return '<odd %s>' % str.__str__(self)
+def strlike_forms(s):
+    """[a str-Enum member whose value is s (class name starts with 'M'), a str subclass with its own __str__]"""
+    E = _enum.Enum('MastersText', {'MEMBER': s}, type=str)
+    return [E.MEMBER, _Odd(s)]
